@@ -4,11 +4,11 @@ import (
 	"bytes"
 	"encoding/json"
 	"fmt"
-	"os"
-	"path/filepath"
 	"go/ast"
 	"go/parser"
 	"go/token"
+	"os"
+	"path/filepath"
 	"sort"
 	"strings"
 	"sync"
@@ -50,19 +50,19 @@ type verdict struct {
 	Props  []string // properties whose statement the discrepancy contradicts
 	Msg    string
 
-	Kind        ref.PKind
-	Sites       int
-	SiteSlots   []string
-	Optional    int
-	Inadmissible int
-	NearMisses  int // planted mutants the reference confirms are not instances
-	Holes       int
-	RepeatedHoles int
-	MinusDots   int
-	PlusDots    int
-	Elided      int
+	Kind             ref.PKind
+	Sites            int
+	SiteSlots        []string
+	Optional         int
+	Inadmissible     int
+	NearMisses       int // planted mutants the reference confirms are not instances
+	Holes            int
+	RepeatedHoles    int
+	MinusDots        int
+	PlusDots         int
+	Elided           int
 	DistinctBindings int
-	BoundThenFailed int
+	BoundThenFailed  int
 }
 
 func (v *verdict) contradicts(prop string) bool {
@@ -214,12 +214,12 @@ func loadHosts() []*hostInfo {
 }
 
 type modelOpts struct {
-	Mine        gen.MineOpts
-	MaxHostLines int
-	Kinds       []ref.PKind // drawn uniformly
-	MinPlants, MaxPlants int
+	Mine                   gen.MineOpts
+	MaxHostLines           int
+	Kinds                  []ref.PKind // drawn uniformly
+	MinPlants, MaxPlants   int
 	MinMutants, MaxMutants int
-	AllMinusThenPlus bool // sometimes use the minus-block / plus-block layout
+	AllMinusThenPlus       bool // sometimes use the minus-block / plus-block layout
 }
 
 // genModelCase draws a case; nil means the drawn combination could not be
@@ -465,6 +465,15 @@ func evalModel(cs *modelCase) *verdict {
 	}
 	v.Status = "discrepancy"
 	v.Msg = d.String()
+	hasMarker := func(t *ref.Tree) bool {
+		if t == nil {
+			return false
+		}
+		if t.Kind == ref.KLeaf {
+			return strings.Contains(t.Leaf, gen.Marker)
+		}
+		return ref.ContainsIdentPrefix(t, gen.Marker)
+	}
 	switch {
 	case d.Site > 0 && d.Unrewritten:
 		v.Class = "site-unrewritten"
@@ -472,7 +481,7 @@ func evalModel(cs *modelCase) *verdict {
 		if hasDots {
 			v.Props = append(v.Props, "C04")
 		}
-		if v.RepeatedHoles > 0 || v.BoundThenFailed > 0 {
+		if v.RepeatedHoles > 0 {
 			v.Props = append(v.Props, "C02")
 		}
 		s := res.Sites[d.Site-1]
@@ -483,18 +492,45 @@ func evalModel(cs *modelCase) *verdict {
 		if v.PlusDots > 0 {
 			v.Props = append(v.Props, "C04")
 		}
-		if v.DistinctBindings > 1 || v.BoundThenFailed > 0 {
-			v.Props = append(v.Props, "C02")
+		// A filler that belongs to another site (and not to this one) shows
+		// up here: bindings influenced another match site.
+		own := res.Sites[d.Site-1]
+		for _, other := range res.Sites {
+			if other.Index == own.Index {
+				continue
+			}
+			for _, b := range other.Env.Bindings() {
+				if b.Kind != ref.KNode || len(ref.Brief(b)) < 12 {
+					continue
+				}
+				same := func(x *ref.Tree) bool { return x.Kind == ref.KNode && x.RT == b.RT && ref.Equal(b, x, ref.Output) }
+				if d.SiteGot != nil && ref.Contains(d.SiteGot, same) && !ref.Contains(own.Repl, same) {
+					v.Props = append(v.Props, "C02")
+					v.Msg += "\n(the output at this site contains a filler of another site: " + ref.Brief(b) + ")"
+					break
+				}
+			}
+			if v.contradicts("C02") {
+				break
+			}
 		}
 	default:
-		if d.Got != nil && ref.ContainsIdentPrefix(d.Got, gen.Marker) {
+		if hasMarker(d.Got) || hasMarker(d.GotNode) {
 			v.Class = "nonsite-rewritten"
 			v.Props = []string{"C01"}
+			// Would the place be an instance if the metavariable rules were
+			// dropped? Then the metavariable semantics is what failed.
 			if v.Holes > 0 {
-				v.Props = append(v.Props, "C02")
-			}
-			if hasDots {
-				v.Props = append(v.Props, "C04")
+				chain := d.WantChain
+				if d.Want != nil && d.Want.Kind == ref.KNode {
+					chain = append([]*ref.Tree{d.Want}, chain...)
+				}
+				for _, w := range chain {
+					if p.RelaxedMatchesAt(w) {
+						v.Props = append(v.Props, "C02")
+						break
+					}
+				}
 			}
 		} else {
 			v.Class = "outside-changed"
